@@ -440,3 +440,5 @@ _thorough("C20", "C20_longwait2x", "as C20_longwait2 with 5 steps", ["-witness",
 _quick("C07", "C07_shorten", "a persisted hold whose deadline was moved by an update (Count changed) one second after the grant: E 100 -> 2 (shortened), 2 -> 100 (lengthened), 100 -> 50; the instance stops at once, a fresh one starts 0 / 2 / 6 s later: held again exactly if the CURRENT deadline has not passed, with that deadline", ["-witness", "1"], reach=["end", "expired-in-outage"])
 
 _quick("C11", "C11_noaof", "a LOCK with the require-ack flag and persistence timing never / default / at once, on a free key or next to a never-persist holder, taken at once or granted from the wait queue: whenever it is answered SUCCED without waiting for acknowledgements (nothing is written) it is an ordinary hold — re-entrant LOCK and UNLOCK by its owner are accepted, never LOCK_ACK_WAITING", ["-witness", "1"], reach=["granted-at-once", "pending"])
+
+_quick("C01", "C01_prioritymutex", "the shard mutex (PriorityMutex.Lock / LowPriorityLock / HighPriorityLock and their unlocks) from a free mutex, with the other threads as nondeterminism: each of the next 5 atomic loads of the low-priority lane counter and of the high-priority flag returns an arbitrary value (solver variables); every lock function returns holding the inner mutex, every unlock gives it back", [], reach=["end", "locked"], native=False)
